@@ -39,6 +39,22 @@ type scase struct {
 	Fop      string `json:"fop"`      // what the scripted body filter does before routing: keep | strip | fill | trail
 	Data     string `json:"data"`     // what the forwarding phases see (derived by the spec): absent | empty | bytes
 	Trailers string `json:"trailers"` // absent | present
+	// Layer "script": the attempts go to the scripted upstream stream layer (scriptlayer.go) instead of a real upstream
+	Layer string `json:"layer"`
+}
+
+// timerHeld reports whether the schedule of the case holds a per-try timer callback at its start: such a callback may
+// complete for an attempt whose end the worker has handled meanwhile (Stop cannot cancel a callback that is running).
+func timerHeld(c scase) bool {
+	if strings.HasPrefix(c.Hold, "ds.ptimer.fire") || strings.HasPrefix(c.Hold2, "ds.ptimer.fire") {
+		return true
+	}
+	for _, st := range c.Steps {
+		if strings.HasPrefix(st, "hold:ds.ptimer.fire") {
+			return true
+		}
+	}
+	return false
 }
 
 const (
@@ -142,6 +158,10 @@ func main() {
 		upAddr = hu.Addr
 	}
 	ref1, ref2, ref3, ref4 := e2e.RefusedAddr(), e2e.RefusedAddr(), e2e.RefusedAddr(), e2e.RefusedAddr()
+	scripted := !isBolt && !isH2 // the scripted stream layer answers in HTTP/1 terms: routes /s/<cluster>/ of the HTTP/1 listener
+	if scripted {
+		vh.Must(registerScriptLayer(ref1, ref2, ref3, ref4), "scripted stream layer")
+	}
 	laddr := e2e.ListenerAddr()
 	rrr := v2.LbType("LB_REQUEST_ROUNDROBIN") // deterministic host order per request: index 0 first, next on retry
 	clusters := e2e.BuildClusters([]e2e.ClusterSpec{
@@ -165,6 +185,10 @@ func main() {
 			rs.Extra = func(r *v2.Router) { r.Match = v2.RouterMatch{Headers: []v2.HeaderMatcher{{Name: "cluster", Value: c}}} }
 		}
 		routes = append(routes, rs)
+		if scripted {
+			routes = append(routes, e2e.RouteSpec{Prefix: "/s/" + c + "/", Cluster: c, RetryOn: true, NumRetries: 2,
+				Extra: func(r *v2.Router) { r.Route.UpstreamProtocol = string(scriptProto) }})
+		}
 	}
 	ls := e2e.ListenerSpec{Name: "c03", Addr: laddr, Downstream: "Http1", Upstream: "Http1", Routes: routes}
 	if isBolt {
@@ -221,6 +245,18 @@ func main() {
 			if len(e.KV) > 1 {
 				ev["a"] = fmt.Sprint(e.KV[1:]...)
 			}
+			switch e.Name {
+			case "ds.loop.phase": // the worker leaves receive() for a retry: it has handled the end of the attempt (setupRetry)
+				if len(e.KV) > 2 {
+					if ph, ok := e.KV[2].(int); ok && ph == int(types.Retry) {
+						ev["retry"] = true
+					}
+				}
+			case "ds.ptimer": // a per-try timer callback at its compare-and-swap: won = it goes on to time the attempt out
+				if len(e.KV) > 1 && e.KV[1] == true {
+					ev["ptwon"] = true
+				}
+			}
 			tr.Emit(ev)
 		}
 	})
@@ -252,7 +288,15 @@ func main() {
 			c.Steps = []string{} // JSON null is not a TLA+ value
 		}
 		tok := fmt.Sprintf("t%d-%d", *shard, idx)
-		tr.Emit(vh.Ev{"ev": "run", "name": tok, "budget": budget, "case": c, "proto": *proto})
+		tr.Emit(vh.Ev{"ev": "run", "name": tok, "budget": budget, "case": c, "proto": *proto, "ptheld": timerHeld(c)})
+		var ureg upRegistry = reg // the scripted upstream side of this case
+		uriBase := "/" + c.Cluster + "/x?tok=" + tok
+		if c.Layer == "script" {
+			if !scripted {
+				vh.Must(fmt.Errorf("case for the scripted stream layer, driver started with -proto %s", *proto), "cases")
+			}
+			ureg, uriBase = sreg, "/s/"+c.Cluster+"/x?tok="+tok
+		}
 		// ids grow monotonically: everything >= the next id belongs to this run
 		mark := sched.Mark()
 		hdr := map[string]string{"X-Token": tok, "X-Script": strings.Join(c.Script, ","),
@@ -330,10 +374,10 @@ func main() {
 			hc, err := e2e.DialHTTP(laddr)
 			vh.Must(err, "dial proxy")
 			if c.Wire != "" {
-				wireLen, err = sendHTTP1(hc, c, "/"+c.Cluster+"/x?tok="+tok, hdr)
+				wireLen, err = sendHTTP1(hc, c, uriBase, hdr)
 				vh.Must(err, "send")
 			} else {
-				vh.Must(hc.Send(method(c), "/"+c.Cluster+"/x?tok="+tok, hdr, reqBody(c, tok)), "send")
+				vh.Must(hc.Send(method(c), uriBase, hdr, reqBody(c, tok)), "send")
 			}
 			cl = hc
 		}
@@ -370,14 +414,15 @@ func main() {
 					case "clientreset":
 						cl.Close()
 						clientClosed = true
-					case "upresp", "upclose", "up503":
-						want := map[string]string{"upresp": "gate", "upclose": "gateclose", "up503": "gs503"}[arg]
+					case "upresp", "upclose", "up503", "upanswer", "upreset":
+						// upanswer / upreset: the two events of an attempt that is answered and then reset (gok...): one release each
+						want := map[string]string{"upresp": "gate", "upclose": "gateclose", "up503": "gs503", "upanswer": "gok", "upreset": "gok"}[arg]
 						dl := time.Now().Add(300 * time.Millisecond)
 						done := false
 						for time.Now().Before(dl) && !done {
-							for _, a := range reg.Arrivals(tok) {
-								if a.Behave == want {
-									reg.Release(tok, a.Attempt)
+							for _, a := range ureg.Arrivals(tok) {
+								if a.Behave == want || (want == "gok" && strings.HasPrefix(a.Behave, want)) {
+									ureg.Release(tok, a.Attempt)
 									done = true
 								}
 							}
@@ -414,9 +459,9 @@ func main() {
 					// wait until the scripted upstream holds an arrival with the wanted behaviour, then let it act
 					dl := time.Now().Add(60 * time.Millisecond) // shorter than the global timeout: the overlap is realised or abandoned
 					for time.Now().Before(dl) && !happened {
-						for _, a := range reg.Arrivals(tok) {
+						for _, a := range ureg.Arrivals(tok) {
 							if a.Behave == want {
-								reg.Release(tok, a.Attempt)
+								ureg.Release(tok, a.Attempt)
 								name := "us.recv"
 								if want == "gateclose" {
 									name = "us.reset"
@@ -475,6 +520,7 @@ func main() {
 			o = e2e.Outcome{Kind: "closed"}
 		}
 		reg.ReleaseAll()
+		sreg.ReleaseAll()
 		sched.ReleaseAll()
 		rid := atomic.LoadUint64(&firstRid)
 		if rid != 0 {
@@ -492,7 +538,7 @@ func main() {
 		if c.Wire != "" && c.Hold == "none" && len(c.Steps) == 0 && !clientClosed {
 			// nothing was held and the client stayed: every attempt for which the pool handed out a stream must have
 			// reached the scripted upstream as one complete request, with the body the request shape says
-			arr := reg.Arrivals(tok)
+			arr := ureg.Arrivals(tok)
 			blen, same := -1, true
 			for i, a := range arr {
 				if i == 0 {
@@ -517,7 +563,7 @@ func main() {
 			}
 			time.Sleep(10 * time.Millisecond) // the books are settled a few statements after ds.clean
 		}
-		tr.Emit(vh.Ev{"ev": "quiesce", "active": active(), "arrivals": len(reg.Arrivals(tok)), "rq": rq, "pd": pd, "rt": rt})
+		tr.Emit(vh.Ev{"ev": "quiesce", "active": active(), "arrivals": len(ureg.Arrivals(tok)), "rq": rq, "pd": pd, "rt": rt})
 		rs.Put(map[string]interface{}{"idx": idx, "case": c, "reached": reached, "happened": happened, "outcome": o.Kind,
 			"status": o.Status, "elapsed": o.ElapsedMs, "rid": rid})
 		atomic.StoreUint64(&minRid, rid+1)
